@@ -468,4 +468,14 @@ func VerifC04_Document(dir, opIdx, enc, minor int) {
 	}
 	verifReach("decoded")
 	verifAssert("binary encoding of the decoded document is byte-identical to the original's", verifBytesEq(bin, ttlv.MarshalTTLV(back)))
+	// C18 at document level, typed target: writing the decoded message again in
+	// the same encoding gives the same text
+	doc1 := append([]byte(nil), doc...)
+	var doc2 []byte
+	if enc == 1 {
+		doc2 = ttlv.MarshalXML(back)
+	} else {
+		doc2 = ttlv.MarshalJSON(back)
+	}
+	verifAssert("re-encoding the decoded document gives the same text", verifBytesEq(doc1, doc2))
 }
